@@ -44,6 +44,19 @@ func (eng *Engine) freshIn(v ssa.Value, scope scopeFn, seen map[ssa.Value]bool) 
 		}
 		return true
 	case *ssa.Call:
+		// constructors of the set library return fresh sets
+		if x.Common().IsInvoke() {
+			if strings.HasSuffix(x.Common().Value.Type().String(), "golang-set.Set") {
+				switch x.Common().Method.Name() {
+				case "Union", "Difference", "Intersect", "Clone", "PowerSet", "SymmetricDifference":
+					return scope(x.Block())
+				}
+			}
+			return false
+		}
+		if f, ok := x.Common().Value.(*ssa.Function); ok && strings.HasSuffix(f.String(), "golang-set.NewSet") {
+			return scope(x.Block())
+		}
 		if b, ok := x.Common().Value.(*ssa.Builtin); ok && b.Name() == "append" {
 			a0 := x.Common().Args[0]
 			if c, ok := a0.(*ssa.Const); ok && c.Value == nil {
